@@ -96,6 +96,17 @@ package include
 //@   ensures [C11:entered_registered] !old(has(visited, includePath)) && has(visited, includePath) ==> has(result.Files, includePath)
 //@   modifies visited[*], result.Files[*], result.FileOrder, l.cache[*]
 
+// mergeInclude: the included file first, then what it included, in its own include order (FileOrder is what the
+// list builders, hover sums and completion walk: it must not depend on map iteration).
+//@ func mergeInclude
+//@   props C10 C11 C15
+//@   requires result != nil && result.Files != nil && (subResult != nil ==> subResult.Files != nil && subResult.Files != result.Files)
+//@   ensures [noop] subResult == nil || subResult.Primary == nil ==> (forall p string :: has(result.Files, p) == old(has(result.Files, p)) && result.Files[p] == old(result.Files[p])) && result.FileOrder == old(result.FileOrder)
+//@   ensures [C10:merged] subResult != nil && subResult.Primary != nil ==> (forall p string :: {has(result.Files, p)} has(result.Files, p) == (old(has(result.Files, p)) || p == includePath || has(subResult.Files, p)))
+//@   ensures [C10:merged_values] subResult != nil && subResult.Primary != nil ==> (forall p string :: {result.Files[p]} result.Files[p] == ite(has(subResult.Files, p), subResult.Files[p], ite(p == includePath, subResult.Primary, old(result.Files[p]))))
+//@   ensures [C15:order] subResult != nil && subResult.Primary != nil ==> len(result.FileOrder) == old(len(result.FileOrder)) + 1 + len(subResult.FileOrder) && result.FileOrder[old(len(result.FileOrder))] == includePath
+//@   modifies result.Files[*], result.FileOrder
+
 //@ func onDirective
 //@   props C10
 //@   ensures [C10:too_deep_on_directive] subResult == nil ==> (forall i int :: 0 <= i && i < len(result) ==> result[i].Range == incRange)
